@@ -21,6 +21,16 @@ func (x *xtr) co(n ast.Node, v xval, ty *xty) string {
 		if ty.k == kAny {
 			return "Go.Any.nil"
 		}
+		if ty.k == kErrOpt || ty.k == kOpt {
+			return "none"
+		}
+	case kErr:
+		if ty.k == kErrOpt {
+			return "some " + paren(v.s)
+		}
+		if sameTy(v.ty, ty) {
+			return v.s
+		}
 	case kConst:
 		switch ty.k {
 		case kInt:
@@ -115,6 +125,12 @@ func (x *xtr) expr(e ast.Expr) xval {
 		switch t.Op {
 		case token.NOT:
 			return xval{s: "!" + paren(x.co(e, v, tBoolx)), ty: tBoolx}
+		case token.AND:
+			// &v of a local variable that is assigned exactly once (its definition): the pointer is the value
+			if id, ok := t.X.(*ast.Ident); ok && v.ty.k == kOrd && x.assignedOnce(id.Name) {
+				return xval{s: "some " + paren(v.s), ty: &xty{k: kOpt, elem: v.ty}}
+			}
+			x.bad(e, "address of something that is not a float32 variable assigned exactly once")
 		case token.SUB:
 			if v.ty.k == kConst {
 				return xval{ty: tCon, c: -v.c, s: fmt.Sprint(-v.c)}
@@ -155,6 +171,13 @@ func (x *xtr) expr(e ast.Expr) xval {
 			}
 			return xval{s: fmt.Sprintf("Go.sliceI %s %s %s", paren(b.s), paren(lo), paren(x.intExpr(t.High))), ty: b.ty}
 		}
+	case *ast.StarExpr:
+		// *p of a pointer value (nil dereference: Go panics, here the zero value)
+		if v := x.expr(t.X); v.ty.k == kOpt {
+			x.usesRtX = true
+			x.zero(e, v.ty.elem)
+			return xval{s: "Go.deref " + paren(v.s), ty: v.ty.elem}
+		}
 	case *ast.CompositeLit:
 		return x.composite(t)
 	case *ast.CallExpr:
@@ -171,6 +194,9 @@ func (x *xtr) composite(t *ast.CompositeLit) xval {
 	switch ty.k {
 	case kStruct:
 		st := x.structs[ty.name]
+		if len(st.caps) > 0 {
+			x.bad(t, "literal of %s, whose slice capacity is modelled (structSpec.Caps)", st.name)
+		}
 		given := map[string]string{}
 		for _, el := range t.Elts {
 			kv, ok := el.(*ast.KeyValueExpr)
@@ -178,6 +204,17 @@ func (x *xtr) composite(t *ast.CompositeLit) xval {
 				x.bad(el, "struct literal without field names")
 			}
 			k, ok := kv.Key.(*ast.Ident)
+			if ok && st.drop[k.Name] {
+				// a field the spec leaves out (structSpec.Drop): its initialiser must be free of calls
+				ast.Inspect(kv.Value, func(n ast.Node) bool {
+					switch n.(type) {
+					case *ast.CallExpr, *ast.FuncLit:
+						x.bad(kv.Value, "initialiser of the dropped field %s.%s contains a call", st.name, k.Name)
+					}
+					return true
+				})
+				continue
+			}
 			if !ok || st.field(k.Name) == nil {
 				x.bad(el, "field of %s that is not modelled", st.name)
 			}
@@ -233,6 +270,17 @@ func (x *xtr) binary(t *ast.BinaryExpr) xval {
 			}
 			return xval{s: "!List.isEmpty " + paren(o.s), ty: tBoolx}
 		}
+		if o.ty.k == kAny || o.ty.k == kErrOpt {
+			// an interface value / a named error result compared with nil
+			fn := map[xkind]string{kAny: "Go.Any.isNil ", kErrOpt: "Option.isNone "}[o.ty.k]
+			if o.ty.k == kAny {
+				x.usesRtX = true
+			}
+			if t.Op == token.EQL {
+				return xval{s: fn + paren(o.s), ty: tBoolx}
+			}
+			return xval{s: "!" + fn + paren(o.s), ty: tBoolx}
+		}
 		x.bad(t, "comparison of %s with nil (an error is tested only right after the call that returned it)", o.ty.lean())
 	}
 	ty := a.ty
@@ -284,6 +332,23 @@ func (x *xtr) binary(t *ast.BinaryExpr) xval {
 		}
 	case token.LSS, token.LEQ, token.GTR, token.GEQ:
 		switch ty.k {
+		case kOrd:
+			// float32 as an abstract ordered type: `a > b` is `b < a` also for IEEE values (NaN: both false);
+			// <= and >= are not (they are not the negations of > and <), so they are rejected
+			switch t.Op {
+			case token.LSS:
+				return xval{s: fmt.Sprintf("decide (%s < %s)", as, bs), ty: tBoolx}
+			case token.GTR:
+				return xval{s: fmt.Sprintf("decide (%s < %s)", bs, as), ty: tBoolx}
+			case token.LEQ:
+				if x.sp.FloatLE { // with spec.FloatLE the type parameter also has a decidable ≤
+					return xval{s: fmt.Sprintf("decide (%s ≤ %s)", as, bs), ty: tBoolx}
+				}
+			case token.GEQ:
+				if x.sp.FloatLE {
+					return xval{s: fmt.Sprintf("decide (%s ≤ %s)", bs, as), ty: tBoolx}
+				}
+			}
 		case kInt:
 			op := map[token.Token]string{token.LSS: "<", token.LEQ: "≤", token.GTR: ">", token.GEQ: "≥"}[t.Op]
 			return xval{s: fmt.Sprintf("decide (%s %s %s)", as, op, bs), ty: tBoolx}
@@ -328,17 +393,40 @@ func (x *xtr) format(c *ast.CallExpr) string {
 		if i > 0 {
 			parts = append(parts, leanString(x, c, f[:i]))
 		}
-		if i+1 >= len(f) || !strings.ContainsRune("wsv", rune(f[i+1])) {
+		if i+1 >= len(f) || !strings.ContainsRune("wsvd", rune(f[i+1])) {
 			x.bad(c, "format verb in %q", f)
 		}
 		if arg >= len(c.Args) {
 			x.bad(c, "format with too few arguments")
 		}
 		v := x.expr(c.Args[arg])
-		if v.ty.k != kStr && v.ty.k != kErr {
+		switch {
+		case f[i+1] == 'd':
+			// %d of an int / int64: its decimal text
+			if v.ty.k != kInt && v.ty.k != kConst {
+				x.bad(c.Args[arg], "%%d of %s", v.ty.lean())
+			}
+			x.usesRtX = true
+			parts = append(parts, "Go.fmtInt "+paren(x.co(c.Args[arg], v, tInt)))
+		case v.ty.k == kStr || v.ty.k == kErr:
+			parts = append(parts, paren(v.s))
+		case v.ty.k == kErrOpt:
+			// a named error result that may be nil: fmt prints a nil error as <nil> / %!w(<nil>) / %!s(<nil>)
+			nilText := map[byte]string{'v': "<nil>", 'w': "%!w(<nil>)", 's': "%!s(<nil>)"}[f[i+1]]
+			x.usesRtX = true
+			parts = append(parts, fmt.Sprintf("Go.fmtErr %s %s", leanString(x, c, nilText), paren(v.s)))
+		case v.ty.k == kOpaque && f[i+1] == 'v' && x.env["fmt_"+v.ty.name] != nil && x.env["fmt_"+v.ty.name].k == kFunc:
+			// the text of a value of an opaque type: the abstract function fmt_<Type> (spec.Prims "fmt_T=func(v T) string")
+			parts = append(parts, ident("fmt_"+v.ty.name)+" "+paren(v.s))
+		case v.ty.k == kAny && f[i+1] == 'v':
+			// the text of an arbitrary interface value is not modelled: the abstract parameter fmtAny
+			if !x.prims["fmtAny"] {
+				x.bad(c.Args[arg], "%%v of an interface value needs the parameter fmtAny (spec.Prims)")
+			}
+			parts = append(parts, "fmtAny "+paren(v.s))
+		default:
 			x.bad(c.Args[arg], "format argument of type %s", v.ty.lean())
 		}
-		parts = append(parts, paren(v.s))
 		arg++
 		f = f[i+2:]
 	}
@@ -398,6 +486,34 @@ func (x *xtr) call(c *ast.CallExpr) xval {
 			}
 		}
 	}
+	if se, ok := c.Fun.(*ast.SelectorExpr); ok {
+		if id, ok := se.X.(*ast.Ident); ok {
+			if sty, ok := x.env[id.Name]; ok && sty.k == kStruct {
+				// a call of a function-typed field of a struct value
+				if ft := x.structs[sty.name].field(se.Sel.Name); ft != nil && ft.k == kFunc && !ft.oracle {
+					if len(ft.results) != 1 || ft.results[0].k == kErr {
+						x.bad(c, "call of the field %s.%s with %d results or an error result", id.Name, se.Sel.Name, len(ft.results))
+					}
+					return xval{s: x.applyFn(c, paren(ident(id.Name))+"."+ident(se.Sel.Name), ft), ty: ft.results[0]}
+				}
+			}
+		}
+		// a method of an opaque value that does not change it: `v.M(..)` or `v.f.M(..)`
+		if rt := x.opaqueRecv(se.X); rt != nil {
+			rv := x.expr(se.X)
+			m, ok := x.methods[rt.name+"."+se.Sel.Name]
+			if !ok {
+				x.bad(c, "method %s of the opaque type %s (spec.Methods)", se.Sel.Name, rt.name)
+			}
+			if m.mut {
+				x.bad(c, "the mutating method %s.%s may only be the whole condition of an `if` on a struct field", rt.name, se.Sel.Name)
+			}
+			if len(m.ft.results) != 1 {
+				x.bad(c, "method %s with %d results inside an expression", se.Sel.Name, len(m.ft.results))
+			}
+			return xval{s: x.applyFn(c, m.lean+" "+paren(rv.s), m.ft), ty: m.ft.results[0]}
+		}
+	}
 	if u, ok := x.uses[name]; ok {
 		te, err := parser.ParseExpr(u.Sig)
 		if err != nil {
@@ -429,6 +545,20 @@ func (x *xtr) call(c *ast.CallExpr) xval {
 			x.bad(c, "strings.Split with a separator that is not a non-empty literal")
 		}
 		return xval{s: fmt.Sprintf("Go.strSplit %s %s", paren(x.co(c.Args[0], x.expr(c.Args[0]), tStr)), x.expr(sep).s), ty: listOf(tStr)}
+	case "cap":
+		// the capacity of a struct's slice field, kept in the ghost field <f>_cap (structSpec.Caps)
+		need(1)
+		if se, ok := c.Args[0].(*ast.SelectorExpr); ok {
+			if b := x.expr(se.X); b.ty.k == kStruct && x.structs[b.ty.name].caps[se.Sel.Name] {
+				return xval{s: paren(b.s) + "." + ident(se.Sel.Name+"_cap"), ty: tInt}
+			}
+		}
+		if id, ok := c.Args[0].(*ast.Ident); ok {
+			if cv, ok := x.capVars[id.Name]; ok && x.env[cv] != nil && x.env[cv].k == kInt {
+				return xval{s: ident(cv), ty: tInt}
+			}
+		}
+		x.bad(c, "cap of something that is neither a struct field of structSpec.Caps nor a variable of spec.CapVars")
 	case "len":
 		need(1)
 		a := x.expr(c.Args[0])
@@ -524,6 +654,69 @@ func (x *xtr) call(c *ast.CallExpr) xval {
 	return xval{}
 }
 
+// is the variable assigned exactly once in the whole function body (so that &v can stand for its value)?
+func (x *xtr) assignedOnce(name string) bool {
+	if x.fnBody == nil || x.params[name] {
+		return false
+	}
+	n := 0
+	ast.Inspect(x.fnBody, func(m ast.Node) bool {
+		switch t := m.(type) {
+		case *ast.AssignStmt:
+			for _, l := range t.Lhs {
+				if lvalueBase(l) == name {
+					n++
+				}
+			}
+		case *ast.IncDecStmt:
+			if lvalueBase(t.X) == name {
+				n++
+			}
+		case *ast.RangeStmt:
+			if isIdent(t.Key, name) || isIdent(t.Value, name) {
+				n += 2
+			}
+		case *ast.ValueSpec:
+			for _, id := range t.Names {
+				if id.Name == name {
+					n += 2 // `var v T` followed by assignments: not the single-definition form
+				}
+			}
+		case *ast.UnaryExpr:
+			if t.Op == token.AND && isIdent(t.X, name) {
+				// fine: taking the address does not assign
+			}
+		}
+		return true
+	})
+	return n == 1
+}
+
+// the opaque type of `v` / `v.f` / `v[i].f` …, nil if the expression is not a variable path of opaque type
+func (x *xtr) opaqueRecv(e ast.Expr) *xty {
+	if len(x.opaque) == 0 {
+		return nil
+	}
+	base := lvalueBase(e)
+	if base == "" || x.env[base] == nil {
+		return nil
+	}
+	if id, ok := e.(*ast.Ident); ok {
+		if ty := x.env[id.Name]; ty.k == kOpaque {
+			return ty
+		}
+		return nil
+	}
+	if se, ok := e.(*ast.SelectorExpr); ok {
+		if b := x.expr(se.X); b.ty.k == kStruct {
+			if ft := x.structs[b.ty.name].field(se.Sel.Name); ft != nil && ft.k == kOpaque {
+				return ft
+			}
+		}
+	}
+	return nil
+}
+
 func (x *xtr) applyFn(c *ast.CallExpr, fn string, ft *xty) string {
 	if len(c.Args) != len(ft.params) {
 		x.bad(c, "call arity")
@@ -532,7 +725,7 @@ func (x *xtr) applyFn(c *ast.CallExpr, fn string, ft *xty) string {
 	for i, a := range c.Args {
 		parts = append(parts, paren(x.co(a, x.expr(a), ft.params[i])))
 	}
-	if len(c.Args) == 0 {
+	if len(c.Args) == 0 && !strings.Contains(fn, " ") { // (a method prim is already applied to its receiver)
 		parts = append(parts, "()")
 	}
 	return strings.Join(parts, " ")
